@@ -10,7 +10,6 @@ import Spade.Algo.Insert
 import Spade.Algo.LineIter
 import Spade.Algo.Remove
 import Spade.Algo.Constrain
-import Spade.Algo.Voronoi
 namespace Spade
 
 def scale1074N : Nat := 2 ^ 1074
@@ -139,15 +138,15 @@ def vvTok (s : St) (e : Nat) : String :=
 
 /-- structural clauses of the Voronoi view for one directed Voronoi edge -/
 def veStructOK (s : St) (v : VE) : Bool :=
-  v.d < s.nE && v.fromTok == vvTok s v.d && v.toTok == vvTok s (s.vRev v.d) && v.site == s.vSite v.d &&
-  v.next == s.vNext v.d && v.prev == s.vPrev v.d && v.rev == s.vRev v.d
+  v.d < s.nE && v.fromTok == vvTok s v.d && v.toTok == vvTok s (s.rv v.d) && v.site == s.org v.d &&
+  v.next == s.ccw v.d && v.prev == s.cw v.d && v.rev == s.rv v.d
 
 /-- direction vector = dual edge rotated by +90°, exactly (`tol = 0`) or within `|edge|·2^-k` -/
 def veDirOK (s : St) (v : VE) (k : Nat) : Bool :=
   match v.dvx, v.dvy with
   | .fin x, .fin y =>
-    let ex := (Generated.vorDirection (s.A v.d) (s.B v.d)).x
-    let ey := (Generated.vorDirection (s.A v.d) (s.B v.d)).y
+    let ex := -((s.B v.d).y - (s.A v.d).y)
+    let ey := (s.B v.d).x - (s.A v.d).x
     if k == 0 then x == ex && y == ey
     else
       let m := max (max (s.A v.d).x.natAbs (s.A v.d).y.natAbs) (max (s.B v.d).x.natAbs (s.B v.d).y.natAbs)
